@@ -19,14 +19,15 @@
        attribute is u.String() of a parsed URL whose scheme is empty or one of mailto, http, https;
        no comment or doctype is read;
      - conversely a document that is the canonical serialisation of items UGCPolicy leaves alone is
-       returned byte for byte (C04_ugc_pass_through, with a concrete instance).
+       returned byte for byte (C04_ugc_pass_through, with a concrete instance); every documented
+       (element, attribute, sample value) is accepted by the regenerated rules (C04_ugc_documented_values).
    Missing: the DOM clause (x/net/html's tree builder is not modelled); exercised by the C01/C07
    oracles through UGCPolicy in ten containers. *)
 From Coq Require Import List NArith Bool String.
 Import ListNotations.
 From BM Require Import Bytes Strings Escape Regex Tokenizer Policy Url Attrs Loop Builder LoopInv LoopProps AttrsSound
                        EscapeProofs Retokenize SanRoundTrip TokenLevel AttrProvenance PassThrough
-                       GenTables GenScripts Forced UGCSpec C04Inst PlainInst C01.
+                       GenTables GenScripts Forced UGCSpec C04Inst PlainInst C04Samples C01.
 Open Scope N_scope.
 
 Lemma lookup_In {V} k (m : amap V) v : lookup k m = Some v -> exists k', beqb k' k = true /\ In (k', v) m.
@@ -263,7 +264,13 @@ End C04.
 
 Print Assumptions C04_strict_text_only.
 Print Assumptions C04_ugc_tags.
+(* every documented (element, attribute, sample value) passes UGCPolicy's attribute rules, with the
+   regexps regenerated from helpers.go run by the verified matcher (515 samples) *)
+Theorem C04_ugc_documented_values : ugc_samples_ok = true.
+Proof. exact ugc_samples_accepted. Qed.
+
 Print Assumptions C04_ugc_tables.
+Print Assumptions C04_ugc_documented_values.
 Print Assumptions C04_strict_no_markup.
 Print Assumptions C04_strict_idempotent.
 Print Assumptions C04_ugc_output_tokens.
